@@ -160,8 +160,10 @@ Section Tables.
                 match sub r with Err e => Err e | Ok r' =>
                   Ok (bin OR (un NOT l') (un NOT r')) end end
             | EQUIVALENCE =>
+                (* left = simplify(IMPLIES(left, right)); right = simplify(IMPLIES(right, left))
+                   — the second call sees the *reassigned* left *)
                 match S' (Node (DOp IMPLIES) l r) with Err e => Err e | Ok l' =>
-                match S' (Node (DOp IMPLIES) r l) with Err e => Err e | Ok r' =>
+                match S' (Node (DOp IMPLIES) r (Some l')) with Err e => Err e | Ok r' =>
                   Ok (bin AND l' r') end end
             | XOR =>
                 (* left = simplify(AND(left, NOT right)); left = simplify(AND(NOT left, right));
@@ -186,15 +188,16 @@ Section Tables.
     end.
 
   (* the structural version for XOR-free trees with all operands present; equal to the literal one
-     there (Proofs/AstFacts.v) *)
+     there (Proofs/AstFacts.v).  Note the EQUIVALENCE case: the code re-uses the reassigned [left],
+     so P <=> Q becomes (!P | Q) & (!Q | (!P | Q)), which is only P => Q (open finding). *)
   Fixpoint simplify (n : node) : node :=
     match n with
     | Node (DOp o) (Some l) (Some r) =>
         match o with
         | REQUIRES | IMPLIES => bin OR (un NOT (simplify l)) (simplify r)
         | EXCLUDES => bin OR (un NOT (simplify l)) (un NOT (simplify r))
-        | EQUIVALENCE => bin AND (bin OR (un NOT (simplify l)) (simplify r))
-                                 (bin OR (un NOT (simplify r)) (simplify l))
+        | EQUIVALENCE => let l' := bin OR (un NOT (simplify l)) (simplify r) in
+                         bin AND l' (bin OR (un NOT (simplify r)) l')
         | AND => bin AND (simplify l) (simplify r)
         | OR => bin OR (simplify l) (simplify r)
         | _ => n
